@@ -277,12 +277,13 @@ class Pipeline(Harness):
     prop, ob = PROP, 'O4'
     width = 64
 
-    def __init__(self, field, drift):
-        self.field, self.drift = field, drift
-        self.name = 'pipeline-%s-%s' % (field, 'drift' if drift else 'same')
+    def __init__(self, field, drift, client=False):
+        # client: the same round trip for a client audit (-c -M, then -c -P): the connecting client's KEXINIT carries the symbolic names
+        self.field, self.drift, self.client = field, drift, client
+        self.name = 'pipeline-%s-%s%s' % (field, 'drift' if drift else 'same', '-client' if client else '')
 
     def params(self):
-        return {'field': self.field, 'drift': self.drift}
+        return {'field': self.field, 'drift': self.drift, 'client': self.client}
 
     def inputs(self):
         az = ((0x61, 0x7A),)
@@ -320,6 +321,8 @@ class Pipeline(Harness):
                 gex = [group() for _ in range(9)]
             return AE.FakeNet([AE.Conn([BANNER, pk])] + hk + gex, default_end='close')
         pk = AE.frame(AE.kexinit_payload(L['kex'], L['key'], L['enc'], L['mac']))
+        if self.client:
+            return AE.ListenNet(AE.Conn([b'SSH-2.0-OpenSSH_8.0\r\n', pk], 'close'))
         return AE.FakeNet([AE.Conn([BANNER, pk])], default_end='close')
 
     def tool(self, M, vals, net, files):
@@ -356,8 +359,12 @@ class Pipeline(Harness):
         old = sys.argv
         sys.argv = ['ssh-audit', 'x']
         vals = dict(vals, host='target', skip_rate_test=True)
+        more = {}
+        if self.client:
+            vals = dict(vals, host='', client_audit=True)
+            more = {'select': AE.SelectStub}
         try:
-            with AE.patched(M.ssh_audit, argparse=StubArgparse(vals)), AE.patched(M.ssh_socket, socket=net), contextlib.redirect_stdout(buf):
+            with AE.patched(M.ssh_audit, argparse=StubArgparse(vals)), AE.patched(M.ssh_socket, socket=net, **more), contextlib.redirect_stdout(buf), contextlib.redirect_stderr(io.StringIO()):
                 M.ssh_audit.__dict__['open'] = fake_open
                 M.policy.__dict__['open'] = fake_open
                 try:
@@ -472,6 +479,9 @@ def tasks(tier):
     for f in list(FIELDS) + ['gex', 'gex-strict', 'keyorder']:
         T.append(Pipeline(f, False))
         T.append(Pipeline(f, True))
+    for f in ('kex', 'enc', 'mac', 'key'):
+        T.append(Pipeline(f, False, True))
+        T.append(Pipeline(f, True, True))
     T.append(builtins_concrete)
     return T
 
@@ -483,7 +493,7 @@ def harness_by_name(name, params):
     if k.startswith('drift'):
         return Drift(params['field'], params['kind'], params['n'], params['pos'], params['pos2'], params.get('extra', ()))
     if k.startswith('pipeline'):
-        return Pipeline(params['field'], params['drift'])
+        return Pipeline(params['field'], params['drift'], params.get('client', False))
     if k.startswith('builtin-shape'):
         return BuiltinShape(params['n'], params['nopt'], params['sizes'])
     raise KeyError(name)
